@@ -501,7 +501,8 @@ M("C09-some-sibling", "C09", FIL, '''            for sibling in child_siblings:
                 child_seeds = [ind for ind in child_seeds if any(self._is_far_enough(ind, s.centroid) for s in child_siblings)]
             candidates[deme].individuals = child_seeds
 ''', ["R09.3"], "far from SOME sibling")
-M("C09-no-activity-filter", "C09", FIL, "child_siblings = [sibling for sibling in tree.levels[deme.level + 1] if sibling.is_active]", "child_siblings = [sibling for sibling in tree.levels[deme.level + 1]]", ["R09.3"], "FarEnough compares with stopped demes too")
+# property-holding variant (stricter than required: a superset of the configured siblings is compared with): must stay silent
+T("C09-t-no-activity-filter", "C09", FIL, "child_siblings = [sibling for sibling in tree.levels[deme.level + 1] if sibling.is_active]", "child_siblings = [sibling for sibling in tree.levels[deme.level + 1]]", "FarEnough compares with stopped demes too: every configured sibling is still compared with")
 M("C09-check-only-active-ignored", "C09", FIL, "sibling for sibling in tree.levels[deme.level + 1] if (sibling.is_active or not self.check_only_active)", "sibling for sibling in tree.levels[deme.level + 1] if sibling.is_active", ["R09.3"], "NBC_FarEnough ignores inactive siblings even when configured to consider all")
 M("C09-wrong-level", "C09", FIL, "child_siblings = [sibling for sibling in tree.levels[deme.level + 1] if sibling.is_active]", "child_siblings = [sibling for sibling in tree.levels[deme.level] if sibling.is_active]", ["R09.3"], "siblings taken from the parent's level")
 M("C09-first-sibling-only", "C09", FIL, '''                child_seeds = [ind for ind in child_seeds if self._is_far_enough(ind, sibling.centroid)]
@@ -749,20 +750,22 @@ M("C10-gen-inactive", "C10", GEN, '''            for level in tree.levels[:-1]
         }''', '''            for level in tree.levels[:-1]
             for deme in level
         }''', ["R10.1"], "BestPerDeme offers candidates of stopped demes")
-M("C10-gen-skips-young", "C10", GEN, '''        candidates = {}
+# property-holding variant (candidates still come only from active demes): must stay silent
+T("C10-t-gen-skips-young", "C10", GEN, '''        candidates = {}
         for level in tree.levels[:-1]:
             for deme in level:
                 if deme.is_active:''', '''        candidates = {}
         for level in tree.levels[:-1]:
             for deme in level:
-                if deme.is_active and deme.metaepoch_count > 1:''', ["R10.1"], "NBC generator ignores young demes")
+                if deme.is_active and deme.metaepoch_count > 1:''', "NBC generator ignores young demes: still only active demes offer candidates")
 M("C10-filter-adds", "C10", FIL, '''            candidates[deme].individuals = not_equal_candidate_sprouts
         return candidates''', '''            candidates[deme].individuals = not_equal_candidate_sprouts or [deme.best_individual]
         return candidates''', ["R10.2"], "a filter adds a fallback candidate")
 M("C10-skipsame-no-negation", "C10", FIL, "if not np.any(np.all(np.isclose(children_sprout_genomes, ind.genome), axis=1))", "if np.any(np.all(np.isclose(children_sprout_genomes, ind.genome), axis=1))", ["R10.6"], "only repeated seeds pass")
 M("C10-skipsame-any-all", "C10", FIL, "if not np.any(np.all(np.isclose(children_sprout_genomes, ind.genome), axis=1))", "if not np.all(np.any(np.isclose(children_sprout_genomes, ind.genome), axis=1))", ["R10.6"], "quantifiers exchanged")
 M("C10-skipsame-own-children", "C10", FIL, "[child._sprout_seed.genome for level_deme in tree.levels[deme.level] for child in level_deme.children]", "[child._sprout_seed.genome for level_deme in tree.levels[deme.level] for child in level_deme.children if child.is_active]", ["R10.6"], "seeds of stopped demes can be re-sprouted")
-M("C10-empty-kept", "C10", MECH, "        return {k: v for k, v in candidates.items() if candidates[k].individuals}", "        return dict(candidates)", ["R10.5"], "parents without candidates are returned too (they then never hibernate)")
+M("C18-empty-kept", "C18", MECH, "        return {k: v for k, v in candidates.items() if candidates[k].individuals}", "        return dict(candidates)", ["R18.7"], "parents without candidates are returned too: they count as sprouted and never hibernate")
+T("C10-t-empty-kept", "C10", MECH, "        return {k: v for k, v in candidates.items() if candidates[k].individuals}", "        return dict(candidates)", "parents without candidates are returned too (C10 says nothing about them)")
 T("C10-t-demelimit-noguard", "C10", FIL, '''            if len(candidates[deme].individuals) > self.limit:
                 candidates[deme].individuals = sorted(candidates[deme].individuals, reverse=True)[: self.limit]''', '''            candidates[deme].individuals = sorted(candidates[deme].individuals, reverse=True)[: self.limit]''', "unconditional truncation")
 T("C10-t-farenough-alias", "C10", FIL, '''            child_seeds = candidates[deme].individuals
